@@ -391,7 +391,7 @@ func checkRespace(a, b string) string {
 func TestC14Respacing(t *testing.T) {
 	run := h.Begin("C14", "respacing", "rapid: a generated program printed with two independent random layouts (separators from none/SP/TAB/NBSP/U+3000/BOM/LF/CRLF/CR/U+2028/U+2029/U+0085; 'none' only where the reference tokenizer confirms no merge; never a line break before '.', '!.', call '('); oracle: identical position-free tree dumps, both accepted; non-trivial: the two layouts together use >=3 distinct separators; distinct by the pair of texts")
 	defer run.End(t)
-	h.RapidSetup(h.N(3000, 200000), "c14respace")
+	h.RapidSetup(h.N(3000, 1000000), "c14respace")
 	rapid.Check(t, func(rt *rapid.T) {
 		ast := genExpr(rt, &syntaxCfg, rapid.IntRange(1, 5).Draw(rt, "depth"), ref.LvComma)
 		toks := ast.Flatten()
@@ -497,7 +497,7 @@ func genBytesCore(t *rapid.T, maxLen int) []byte {
 func TestC14Tiling(t *testing.T) {
 	run := h.Begin("C14", "tiling", "rapid: arbitrary byte strings (uniform bytes, punctuation-heavy ASCII, lexeme soups with hostile fragments, valid multi-byte UTF-8, byte-mutated valid formulas; sizes up to 2 KiB quick / 64 KiB thorough); oracle: contiguity, order, progress, trivia-only gaps, EOF at len(text), at most len+2 scans, plus the full reference-tokenizer differential; non-trivial: >=3 tokens and at least one multi-byte or invalid byte or scanner error; distinct by text")
 	defer run.End(t)
-	h.RapidSetup(h.N(4000, 300000), "c14tiling")
+	h.RapidSetup(h.N(4000, 1000000), "c14tiling")
 	maxLen := h.N(2048, 65536)
 	rapid.Check(t, func(rt *rapid.T) {
 		sz := maxLen
